@@ -956,6 +956,34 @@ def c02_no_commit_after_abort(env, ob):
     return trace_obligation(env, ob, ctx, res, bad, "Session logs a COMMIT record for a transaction that may already have rolled back")
 
 
+@obligation(id="C02.checkpoint_keeps_what_can_undo_open_transactions", funcs="Database::flush,<Pager as Write>::flush",
+            bounds="every path of Database::flush and of the checkpoint it calls (dirty-page loop unrolled once); callees "
+                   "uninterpreted", native="c02_checkpoint_with_an_open_transaction")
+def c02_checkpoint_open_txn(env, ob):
+    """A checkpoint writes every dirty page, also those dirtied by a transaction that is still open, and then empties the
+    log (C01.checkpoint_order).  After a crash nothing is left that could undo those pages, and nothing records the open
+    transaction as a loser: its rows are there for good.  So the public checkpoint may only empty the log when no
+    transaction is open (or must keep the log records of the open ones): on every path of Database::flush that reaches a
+    log-emptying checkpoint, the coordinator must have been asked about open transactions first."""
+    ctx0, f0, a0, res0 = explore(env, "io/pager.rs", "flush", sig=r"_1: &mut Pager\) -> Result<\(\), std::io::Error>", loop_bound=1)
+    empties = any(idx(p, r"WriteAheadLog.*::truncate$") for p, rv in res0 if not p.panics)
+    ctx, f, args, res = explore(env, "src/lib.rs", "flush", sig=r"_1: &Database\) -> Result<\(\), DatabaseError>", loop_bound=1)
+
+    def bad(path, rv):
+        if path.panics or rv is None:
+            return None
+        ck = idx(path, r"<(?:io::pager::)?Pager as (?:std::io::)?Write>::flush$")
+        if not ck or not empties:
+            return None
+        asked = [i for i in idx(path, r"TransactionCoordinator::\w*(active|open|running|in_flight|quiescent)\w*$") if i < ck[0]]
+        if not asked:
+            return ("log_emptied_while_a_transaction_may_be_open@Database::flush", None)
+        return None
+    if not any(idx(p, r"<(?:io::pager::)?Pager as (?:std::io::)?Write>::flush$") for p, rv in res):
+        return result(ob, "inconclusive", reason="vacuity: Database::flush never reaches the checkpoint", paths=len(res))
+    return trace_obligation(env, ob, ctx, res, bad, "the public checkpoint empties the log although a transaction may be open")
+
+
 @obligation(id="C01.checkpoint_order", also="C13,C09,C08", funcs="<Pager as Write>::flush",
             bounds="every path of the checkpoint (dirty-page loop unrolled once); WAL / file calls uninterpreted",
             native="c01_crash_after_checkpoint_reopens")
